@@ -42,6 +42,23 @@ def strategy(tier):
         lambda t: dict(t[0], short_writes=t[1]))
 
 
+HUGE = 64 * 1024 * 1024 + 8192 + 1
+
+
+def enumerate_cases(tier):
+    """Removal (and replacement) of files far larger than anything else in the checks - sizes at which an implementation may
+    switch to another way of writing or removing a file (step-wise truncation, chunked copies): an object of 64 MiB + 1 block + 1
+    byte disappears from its address in a single step like any other; so does a metadata document of that size."""
+    base = {"cfg": {"algo": "SHA-256", "depth": 3, "width": 2}, "contents": [{"pat": "5a41", "n": HUGE}, {"hex": "79"}],
+            "docs": [{"pat": "3c6d", "n": HUGE}, {"hex": "3c6e65772f3e"}], "short_writes": False, "huge": True}
+    for kind in ("dii_unref_wrong", "delete_sole", "dmeta_one", "smeta_overwrite"):
+        yield dict(base, kind=kind, start=scen.prerequisites(kind), target=scen.target_op(kind, 0))
+
+
+def case_cost(case):
+    return 50 if case.get("huge") else 1
+
+
 def run_case(case, ctx):
     fsi.install()
     sc = scen.Scenario(case, ctx)
